@@ -653,6 +653,8 @@ def run(ctx):
                 why = f'oracle raised {type(ex).__name__}: {str(ex)[:120]}'
             from .. import extra_oracles2
             extra_oracles2.select_entry_points(ctx)
+            from .. import extra_oracles3
+            extra_oracles3.select_round6(ctx)
             ctx.obligation('oracle:close-tau-history', why is None, 'witness-search', why or '')
             ctx.case(('oracle', 'close-tau-history'), None)
             if why:
